@@ -72,7 +72,9 @@ def outcome(kind, out):
     if kind == "ok":
         return ("ok", tsig(out))
     if kind == "err":
-        return ("err", repr(out.errors))
+        # the same entries; the order of the messages of one location is not compared (the by-type union shortcut
+        # and try-each order them differently, see C02), the order of the list is C02's matter
+        return ("err", repr(sorted(({"loc": e["loc"], "err": e["err"]} for e in out.errors), key=lambda e: (repr(e["loc"]), e["err"]))))
     return ("exc", type(out).__name__)
 
 
@@ -275,7 +277,10 @@ def run_type(i, label, spec, tier, st):
     if i % 101 == 0:
         st.sample({"type": short(spec), "label": label})
     apischema.cache.reset()
-    run_deser(case, rz, label, spec, st, tier)
+    if not (tier == "quick" and dc.level_of(label) > 1):
+        # quick: nesting 2 only on the serialization side (whole-sub-tree predicates: check-only / identity
+        # propagation); the deserialization side of nesting 2 is in the thorough tier
+        run_deser(case, rz, label, spec, st, tier)
     run_ser(case, rz, label, spec, st, tier, ctx0)
     case.drop()
 
@@ -286,7 +291,8 @@ def select(tier, label):
     if dc.level_of(label) <= 1:
         return True
     if tier == "quick":
-        return False
+        # nesting 2 over an atom that needs a transformation both ways (enum: member <-> value): the compile-time predicates on whole sub-trees only show on mixed sub-trees
+        return label.endswith("[enum_str]]")
     return True
 
 
@@ -310,7 +316,7 @@ def main(tier: str, t0: float) -> int:
         coverage_extra={"exhaustive": True, "bounds": {"nesting": 2, "deviations": 1, "values_per_type": 6}},
         assumptions=[
             "the reference vector is the library default (no_copy=True, no constructor override, precomputed method)",
-            "aliasing is only checked for types without Any (documented as untouched by deserialization)",
+            "deserialization pass_through is exercised on JSON data only, with predicates / class sets that no JSON datum is an instance of",
         ],
     )
 
